@@ -388,10 +388,14 @@ def check_modification(seq, shape, perm, inner_reverse, modified, acc, sample=Fa
     mod_to.add_interaction('bonds', ['BB', 'XB'], ['1', '0.2', '4000'])
     mappings['fa']['fb'][('MODA',)] = Mapping(mod_from, mod_to, {'a3': {'BB': 1}, 'x1': {'XB': 1}}, {}, ff_from=ff_from, ff_to=ff_to,
                                                names=('MODA',), type='modification')
-    mol, keys, resids, inter = build_molecule(ff_from, seq, shape, perm, inner_reverse, 'consecutive', None)
+    mol, keys, resids, inter = build_molecule(ff_from, seq, shape, perm, False if inner_reverse == 'natural' else inner_reverse,
+                                              'consecutive', None)
     extra_tags = {}
     for r in modified:
         key = max(mol.nodes) + 1 if inner_reverse != 'front' else min(mol.nodes) - 1 - r
+        if inner_reverse == 'natural':
+            # the extra atom is listed with its residue, as in a structure file: after the last atom of that residue
+            key = max(k for (res, _), k in keys.items() if res == r) + 0.5
         mol.add_node(key, atomname='x1', resname='A', resid=resids[r], chain='A', element='C', tag='%d:x1' % r, PTM_atom=True)
         mol.add_edge(key, keys[(r, 'a3')])
         extra_tags[r] = key
@@ -421,6 +425,14 @@ def check_modification(seq, shape, perm, inner_reverse, modified, acc, sample=Fa
                 problems.append(('c01:mod-constituents', 'BB particle built from atoms of residues %r' % (sorted(res),)))
                 break
             bb_of_res[res.pop()] = (k, d)
+        if not problems:
+            numbers = [d.get('resid') for k, d in sorted(plain, key=lambda kd: kd[0])]
+            if numbers != list(range(1, len(seq) + 1)):
+                problems.append(('c01:mod-residue-renumbering', 'the BB particles carry residue numbers %r in output order, expected consecutive %r' % (
+                    numbers, list(range(1, len(seq) + 1)))))
+            olds = {r: bb_of_res[r][1].get('_old_resid') for r in range(len(seq))}
+            if not problems and olds != {r: resids[r] for r in range(len(seq))}:
+                problems.append(('c01:mod-stash', 'stashed input residue numbers %r, input %r' % (olds, resids)))
         if not problems:
             for r in range(len(seq)):
                 k, d = bb_of_res[r]
@@ -504,7 +516,7 @@ def run(ctx):
                 for modified in itertools.combinations(a_res, k):
                     for shape in (['linear'] + (['star', 'ring'] if n >= 3 else [])):
                         for perm in itertools.permutations(range(n)):
-                            for inner in (False, 'spread', 'front'):
+                            for inner in (False, 'spread', 'front', 'natural'):
                                 items.append(('modification', seq, shape, perm, inner, modified))
     acc = Acc()
     for part in common.pmap(work, list(common.chunked(items, max(1, len(items) // 96)))):
